@@ -260,18 +260,25 @@ class FakeMF:
 def check_twists(ck):
     import pyqmc.pbc.supercell as sc
     import pyqmc.pbc.twists as tw
-    meshes = [(2, 2, 2), (3, 1, 1), (2, 2, 1), (3, 3, 1), (4, 2, 2)]
+    # (mesh, shift of the mesh in units of the mesh spacing): non-dyadic meshes and shifted meshes fold onto twists whose fractional
+    # coordinates are not exactly representable, and different members of one twist reach it through different integer offsets
+    meshes = [((2, 2, 2), None), ((3, 1, 1), None), ((2, 2, 1), None), ((3, 3, 1), None), ((4, 2, 2), None), ((3, 3, 3), None), ((6, 6, 6), None), ((2, 2, 1), (0.5, 0.25, 0.0)), ((3, 3, 1), (1 / 3.0, 0.5, 0.0))]
     if ck.thorough:
-        meshes += [(3, 3, 3), (4, 4, 4), (4, 3, 2), (1, 1, 1)]
+        meshes += [((4, 4, 4), None), ((4, 3, 2), None), ((1, 1, 1), None), ((5, 5, 1), None), ((3, 2, 2), (0.25, 0.25, 0.25))]
     Ss = [np.eye(3, dtype=int), np.diag([2, 1, 1]), np.diag([2, 2, 2]), np.array([[1, 1, 0], [1, -1, 0], [0, 0, 1]]), -np.eye(3, dtype=int),
-          np.array([[1, 1, 0], [0, 1, 1], [1, 0, 1]]), np.diag([3, 1, 1]), np.array([[2, 0, 0], [1, 1, 0], [0, -1, 1]])]
+          np.array([[1, 1, 0], [0, 1, 1], [1, 0, 1]]), np.diag([3, 1, 1]), np.array([[2, 0, 0], [1, 1, 0], [0, -1, 1]]), np.array([[3, 1, 0], [0, 1, 0], [0, 0, 1]]), np.diag([2, 2, 1])]
     exprs, todo = [], []
     for kind in (["h2cubic", "lih_fcc", "tric3"] if ck.thorough else ["lih_fcc", "tric3"]):
         cell = build_cell(kind)
         B = cell.reciprocal_vectors()
-        for mesh in meshes:
+        for mesh, shift in meshes:
             kpts = cell.make_kpts(mesh)
             nn = int(np.lcm.reduce(mesh))
+            if shift is not None:
+                kpts = kpts + (np.asarray(shift) / np.asarray(mesh)) @ B
+                nn = nn * 12
+            if mesh == (6, 6, 6) and kind != "lih_fcc" and not ck.thorough:
+                continue
             kappa = kpts @ np.linalg.inv(B)
             p = np.rint(kappa * nn)
             if not np.allclose(kappa * nn, p, atol=1e-8, rtol=0):
@@ -279,12 +286,14 @@ def check_twists(ck):
             p = p.astype(int)
             for S in Ss:
                 dt = det3(S)
-                inp = {"cell": kind, "mesh": list(mesh), "S": [int(x) for x in S.ravel()]}
+                inp = {"cell": kind, "mesh": list(mesh), "mesh_shift": list(shift) if shift is not None else None, "S": [int(x) for x in S.ravel()]}
+                if mesh == (6, 6, 6) and not (abs(dt) == 8 or abs(dt) == 1):
+                    continue
                 def run():
                     sup = sc.get_supercell(cell, np.asarray(S))
                     return sup, tw.create_supercell_twists(sup, FakeMF(kpts))
                 ok, res = ck.guarded(run, "twists", SITE_TW, inp)
-                ck.case((kind, mesh, tuple(inp["S"])), nontrivial=len(kpts) > 1 and abs(dt) > 1)
+                ck.case((kind, mesh, shift, tuple(inp["S"])), nontrivial=len(kpts) > 1 and abs(dt) > 1)
                 if not ok:
                     continue
                 sup, out = res
